@@ -28,8 +28,49 @@ ASSUMPTIONS = ['sampling Size settings are not generated: under sampling '
                '"examples used by rexpy" is the sample, not the supplied set']
 
 
+def expand(case):
+    """'many': more distinct examples than the first sampling threshold
+    (100) but no more than the second (4000), where rexpy still ends up
+    using every example; built here, not stored in the case."""
+    m = case.get('many')
+    if not m:
+        return case
+    n, stride = m['n'], m['stride']
+    base = ['id%d' % i if i % 3 == 0 else '%d-%d' % (i, i % 7) if i % 3 == 1
+            else 'Q_%d x' % i for i in range(n)]
+    idx = [(j * stride + m.get('shift', 0)) % n for j in range(n)]
+    c = dict(case)
+    c['examples'] = [base[i] for i in idx]
+    c['freqs'] = [1 + (i * m.get('fmul', 1)) % 5 for i in idx]
+    c['form'] = 'dict'
+    return c
+
+
+def valid_many(m):
+    import math
+    return m is None or (isinstance(m, dict) and isinstance(m.get('n'), int)
+                         and 4 <= m['n'] <= 600
+                         and isinstance(m.get('stride'), int)
+                         and m['stride'] >= 1
+                         and math.gcd(m['stride'], m['n']) == 1
+                         and isinstance(m.get('shift', 0), int)
+                         and isinstance(m.get('fmul', 1), int))
+
+
 @st.composite
 def freq_case(draw, tier):
+    if draw(st.integers(0, 11)) == 0:
+        n = draw(st.sampled_from([101, 128, 150, 257, 400]))
+        stride = draw(st.sampled_from([s_ for s_ in (1, 3, 7, 11, 37, 59)
+                                       if __import__('math').gcd(s_, n)
+                                       == 1]))
+        return {'examples': ['placeholder'], 'freqs': None,
+                'many': {'n': n, 'stride': stride,
+                         'shift': draw(st.integers(0, 50)),
+                         'fmul': draw(st.sampled_from([1, 2, 3, 0]))},
+                'opts': draw(G.opts_strategy(with_pruning=False)),
+                'size': None, 'seed': draw(st.sampled_from([None, 1])),
+                'form': 'dict', 'avoid_known': True}
     xs = draw(G.examples_strategy(tier, allow_none=True))
     form = draw(st.sampled_from(['list', 'dict', 'dictfreq']))
     freqs = None
@@ -57,6 +98,9 @@ def strategy(tier):
 def valid(case):
     if case.get('size') not in (None, 0):
         return False
+    if not valid_many(case.get('many')):
+        return False
+    case = expand(case)
     f = case.get('freqs')
     if f is not None:
         xs = case.get('examples')
@@ -131,6 +175,9 @@ def run(case, ctx):
     from tdda.rexpy import rexpy
     out = Outcome()
     out.excluded = list(case.get('steered', []))
+    if case.get('many'):
+        out.label('more-than-100-distinct')
+    case = expand(case)
     given, truth, order = supplied_and_truth(case)
     kw = G.extract_kwargs(case)
     ok, x = call(rexpy.extract, given, as_object=True, **kw)
